@@ -821,6 +821,10 @@ impl Worker {
         });
 
         let mut file = if let Some(file) = file {
+            // We're not making room for a new file, but if we've just read the file set
+            // it may already hold more files than we're configured to retain
+            file_set.apply_retention(&self.fs, self.max_files.max(1));
+
             file
         } else {
             // If we had an active file then we haven't looked at the file set yet
